@@ -258,8 +258,10 @@ def histories(ctx, nhist):
                     key = "history-" + ("raised" if problems[0].startswith("operation raised") else "untruthful")
                     key += "-bit" if bit else ""
                     ctx.violation(key, "after %s (%s, %s data): %s" % (" -> ".join(t["op"] for t in trace), metric, kind, problems[0]),
-                                  dict(history=trace, problem=problems[0], note="rows come from np.random.RandomState seeded per history; "
-                                       "re-run the check with the same VERIF_SEED to regenerate them"), True)
+                                  dict(history=trace, problem=problems[0], initial_rows=X.tolist(),
+                                       rows_by_token={str(t): v.tolist() for t, v in vec.items()}, logical_tokens=list(logical_tok),
+                                       note="initial_rows = the constructor's data; rows_by_token holds every row handed to update() "
+                                            "(tokens >= 100 + n in order of appearance: fresh rows, then replacement rows, per update)"), True)
                 continue
             if ops_enc:
                 life_lines.append("lifecycle %d %s %d %s" % (n0, fmt(tokens), len(ops_enc), " ".join(fmt(o) for o in ops_enc)))
